@@ -775,6 +775,8 @@ func (it *Interp) allocCheck(n *Term, ecells int) {
 	}
 	okc := it.St.Ule(n, it.c64(int64(lim)))
 	it.assertObNoAssume("alloc", okc)
+	// the over-allocation (if any) is recorded; keep exploring only the sizes within the limit
+	it.assume(okc)
 }
 
 // assertObNoAssume checks an obligation without constraining the rest of the path.
